@@ -209,6 +209,40 @@ class Planner:
             steps.append(_ex(rng, bad, out=rng.choice(OUT_SPELLINGS)))
         self.add("outpath", rng, steps, self.init_cache(rng))
 
+    def symlink_out(self, i):
+        """the output directory is reached through a symbolic link (`<project>/wsl -> ws`): first run with
+        no SDK on disk, then the very same command again (must touch nothing), then --check"""
+        rng = self.rng("symlink_out", i)
+        bp = rng.choice(self.valid)
+        out = rng.choice(["../wsl/sdk", "$WS/../wsl/sdk"])
+        steps = [{"op": "seed_outdir", "proj": "p0", "state": "none", "bp": bp, "toggles": []}]
+        for mode in ("generate", "generate", "check"):
+            st = _ex(rng, bp, mode=mode, out=out)
+            st["ref"] = "first"
+            steps.append(st)
+        self.add("symlink_out", rng, steps)
+
+    def annot_conflict(self, i):
+        """an annotation conflict inside the path dependency (two components, one id): the error is raised
+        while the dependency is INDEXED, so it must come back when the docs are served from the cache"""
+        rng = self.rng("annot_conflict", i)
+        bp = rng.choice(self.valid + self.invalid[:4])
+        steps = [{"op": "edit", "proj": "p0", "edit": "dep_dup_id"}, _ex(rng, bp), _ex(rng, bp, diag=_diag_gen(rng))]
+        if rng.chance(1, 2):
+            steps += [{"op": "edit", "proj": "p0", "edit": "dep_dup_id"}, _ex(rng, bp)]
+            if bp in self.valid:
+                steps.append(_ex(rng, bp, mode="check"))
+        self.add("annot_conflict", rng, steps, self.init_cache(rng))
+
+    def crlf(self, i):
+        """the SDK on disk is up to date except that its source file has CRLF line endings (what an
+        autocrlf checkout leaves): a normal run rewrites it, so --check must not pass"""
+        rng = self.rng("crlf", i)
+        bp = rng.choice(self.valid)
+        steps = [{"op": "seed_outdir", "proj": "p0", "state": "crlf", "bp": bp, "toggles": []},
+                 _ex(rng, bp, mode="check"), _ex(rng, bp), _ex(rng, bp, mode="check")]
+        self.add("crlf", rng, steps)
+
     def broken_sdk(self, i):
         """an SDK on disk whose manifest no longer parses (merge-conflict markers) and that is not
         registered as a workspace member: the run fails in the persist phase"""
@@ -406,6 +440,12 @@ class Planner:
                 self.overlap(i)
             for i in range(3 if q else 40):
                 self.par(i)
+            for i in range(2 if q else 12):
+                self.symlink_out(i)
+            for i in range(2 if q else 16):
+                self.annot_conflict(i)
+            for i in range(2 if q else 12):
+                self.crlf(i)
             self.ui_mix(24 if q else None, 3, 1 if q else 3, "accept")
             if not q:
                 for rep in range(1, 9):
@@ -451,6 +491,10 @@ class Planner:
                 self.overlap(100 + i)
             for i in range(6 if q else 80):
                 self.par(100 + i)
+            for i in range(3 if q else 30):
+                self.annot_conflict(100 + i)
+            for i in range(1 if q else 8):
+                self.symlink_out(100 + i)
             self.ui_mix(24 if q else None, 3, 1 if q else 3, "reject")
             if not q:
                 for rep in range(1, 8):
